@@ -82,6 +82,8 @@ pub struct VScreen {
     pub wraps: u64,
     /// how often a cursor-up was clamped at the top of the visible area
     pub clamped_up: u64,
+    /// how often a double-width character had to wrap early because only one column was left
+    pub straddles: u64,
 }
 
 /// One logical line: a row plus its soft-wrapped continuation rows.
@@ -109,6 +111,7 @@ impl VScreen {
             tabs_seen: 0,
             wraps: 0,
             clamped_up: 0,
+            straddles: 0,
         }
     }
 
@@ -137,6 +140,9 @@ impl VScreen {
             return; // combining marks and other zero-width characters occupy no cell
         }
         let w = w.min(self.cols);
+        if !self.pending && w == 2 && self.cur_c + 2 > self.cols {
+            self.straddles += 1;
+        }
         if self.pending || (w == 2 && self.cur_c + 2 > self.cols) {
             let r = self.cur_r;
             self.lines[r].wrapped = true;
@@ -359,6 +365,20 @@ impl VScreen {
 /// How a terminal of width `w` lays out `text` written at column 0: one string per row.
 /// Zero-width characters occupy nothing; a double-width character that does not fit at the
 /// margin moves to the next row. An empty text still occupies one (blank) row.
+thread_local! {
+    /// set when a double-width character did not fit into the last column of a row (it "straddles" the
+    /// right margin and wraps one column early) in any line laid out on this thread since the last reset
+    static STRADDLE: std::cell::Cell<bool> = const { std::cell::Cell::new(false) };
+}
+
+pub fn reset_straddle() {
+    STRADDLE.with(|s| s.set(false));
+}
+
+pub fn straddle_seen() -> bool {
+    STRADDLE.with(|s| s.get())
+}
+
 pub fn phys_rows(text: &str, w: usize) -> Vec<String> {
     let w = w.max(1);
     let mut rows = vec![String::new()];
@@ -367,6 +387,9 @@ pub fn phys_rows(text: &str, w: usize) -> Vec<String> {
         let cw = ch.width().unwrap_or(0).min(w);
         if cw == 0 {
             continue;
+        }
+        if cw == 2 && col + 1 == w {
+            STRADDLE.with(|s| s.set(true));
         }
         if col + cw > w {
             rows.push(String::new());
